@@ -214,7 +214,6 @@ func (p *parser) parseIPv4(u *Url, input string) (string, error) {
 	for counter, n := range numbers {
 		ipv4 += IPv4Addr(n * int64(math.Pow(256, float64(3-counter))))
 	}
-	u.isIPv4 = true
 	return ipv4.String(), nil
 }
 
@@ -353,7 +352,6 @@ func (p *parser) parseIPv6(u *Url, input *inputString) (string, error) {
 			return "", err
 		}
 	}
-	u.isIPv6 = true
 	return "[" + address.String() + "]", nil
 }
 
